@@ -32,6 +32,11 @@ def plan(tier, seed):
         if law == "onehot":
             force = {"stochastic": True, "stoch_multi_dep": i % 8 == 3}
         cases.append({"kind": "small", "law": law, "index": i, "seed": [seed, 111, i], "cfg": "quick", "cfg_over": over, "force": force, "env": {"VERIF_X64": "1"}})
+    for i in range(6 if q else 40):  # horizons beyond 10 periods on tiny models
+        cases.append({"kind": "small", "law": ["horizon", "affine", "beta0"][i % 3], "index": i, "seed": [seed, 113, i], "cfg": "quick", "long_horizon": True,
+                      "cfg_over": {"min_T": 11, "max_T": 13, "max_cells": 600, "max_states": 2, "max_choices": 2, "max_cont_state_pts": 4, "max_cont_choice_pts": 4,
+                                   "no_period": i % 3 == 0},
+                      "force": {"two_stochastic": False, "two_cont_states": False, "two_cont_choices": False}, "env": {"VERIF_X64": "1"}})
     for i in range(9 if q else 48):
         cases.append({"kind": "large", "law": ["affine", "beta0", "horizon"][i % 3], "index": i, "seed": [seed, 112, i],
                       "size": ([60, 150, 4] if q else [[100, 500, 5], [200, 700, 6], [300, 1000, 8]][i % 3]), "filter": i % 2 == 1, "env": {"VERIF_X64": "1"}})
@@ -161,7 +166,7 @@ def run_case(case):
                 desc["functions"] = [[n, ar, ("18" if n == "age" else e)] for n, ar, e in desc["functions"]]
                 desc["functions"] = [[n, ([] if n == "age" else ar), e] for n, ar, e in desc["functions"]]
                 base = solve(desc)
-            T2 = max(1, T - int(rng.integers(1, T)))
+            T2 = max(1, T - int(rng.integers(1, T))) if not case.get("long_horizon") else int(rng.integers(2, 9))
             out = solve(truncate(desc, T2))
             for k in range(T2):
                 cmp(out[T2 - 1 - k], base[T - 1 - k], f"{k} periods before the end: horizon {T2} vs horizon {T}")
